@@ -177,10 +177,12 @@ Definition index_range (c : chain) (d : db) (from to : Z) : db := index_from c d
 Definition run_from (c : chain) (s0 : Z) : db := index_range c [] s0 (Z.of_nat (length c)).
 Definition run (c : chain) : db := run_from c 0.
 
-(* OnStart: where indexing resumes.  latest / earliest are the node's Status heights at start. *)
+(* OnStart: where indexing resumes (the cursor = the block BEFORE the first one the loop fetches).
+   latest / earliest are the node's Status heights at start.  When the node has pruned past the last indexed
+   block, the first block fetched is the node's earliest one (fix: it used to be the one after it). *)
 Definition resume (d : db) (latest earliest : Z) : Z :=
   let l := last_indexed d in
-  if l =? -1 then latest else if l <? earliest then earliest else l.
+  if l =? -1 then latest else if l <? earliest then earliest - 1 else l.
 
 (* one life of the service process: started when the node is at height m_start; the node grows to m_end while
    it runs; the process is killed after k batch writes (or earlier, when everything up to m_end is indexed) *)
@@ -278,28 +280,29 @@ Fixpoint svc_run (c : chain) (start : Z) (p : list hplan) (d : db) (cur : Z) (bu
            end
   end.
 
-(* one life with its node-client behaviour: sl_startfail = Status or Subscribe returned an error *)
-Record slife := SL { sl_inc : incarnation; sl_startfail : bool; sl_plan : list hplan }.
+(* one life with its node: sl_earliest = the node's EarliestBlockHeight when the life starts (the node may have pruned
+   blocks while the indexer was down); sl_startfail = Status or Subscribe returned an error *)
+Record slife := SL { sl_inc : incarnation; sl_earliest : Z; sl_startfail : bool; sl_plan : list hplan }.
 
-Definition run_slife (c : chain) (earliest : Z) (d : db) (L : slife) : db :=
+Definition run_slife (c : chain) (d : db) (L : slife) : db :=
   if sl_startfail L then d
   else let i := sl_inc L in
-       let cur := resume d (i_start i) earliest in
+       let cur := resume d (i_start i) (sl_earliest L) in
        svc_run c (i_start i) (sl_plan L) d cur (i_kill i) (Z.to_nat (i_end i - cur)).
 
-Definition slife_run (c : chain) (earliest : Z) (l : list slife) : db :=
-  fold_left (run_slife c earliest) l [].
+Definition slife_run (c : chain) (l : list slife) : db :=
+  fold_left (run_slife c) l [].
 
 (* schedules over which convergence holds: as sched_ok; a life that fails to start reads and writes nothing and is exempt *)
-Fixpoint ssched_ok (c : chain) (earliest : Z) (d : db) (reached : Z) (l : list slife) : bool :=
+Fixpoint ssched_ok (c : chain) (d : db) (reached : Z) (l : list slife) : bool :=
   match l with
   | [] => true
   | L :: r =>
       let i := sl_inc L in
       (i_end i <=? Z.of_nat (length c)) &&
-      if sl_startfail L then ssched_ok c earliest d reached r
+      if sl_startfail L then ssched_ok c d reached r
       else (negb (last_indexed d =? -1) || (i_start i =? reached))
-           && ssched_ok c earliest (run_slife c earliest d L) (step_reached earliest d reached i) r
+           && ssched_ok c (run_slife c d L) (step_reached (sl_earliest L) d reached i) r
   end.
 
 (* number of failed calls planned for a height *)
